@@ -356,6 +356,7 @@ func c09CheckReencode(res *engine.Result, sec *ref.S35Section, events bool) {
 type c09Model struct {
 	sec    ref.S35Section // PTSAdj is derived from sigPTS when encoding
 	sigPTS uint64         // what SCTE35.PTS() reports
+	frame  string         // a frame-condition violation noticed while resynchronising (reported by c09Apply)
 }
 
 func (m *c09Model) seg(i int) *ref.S35Seg {
@@ -444,15 +445,30 @@ func c09D0HasMID(m *c09Model) bool {
 
 // c09ResyncUPID adopts the implementation's upid / MID content of descriptor 0 (after SetUPIDType,
 // whose effect on the stored identifiers is not specified).
+//
+// Frame condition: changing the type may keep or drop the identifiers the getters showed just before
+// the call, it cannot make identifiers appear that were not observable before it (e.g. a list that an
+// earlier type change had removed from every getter and from the encoding).
 func c09ResyncUPID(m *c09Model, s scte35.SCTE35) {
 	g, d := m.seg(0), c09D0(s)
+	oldUPID, oldMID := g.UPID, g.MID
 	g.UPID, g.MID = nil, nil
 	if g.UPIDType == ref.S35UPIDMID {
 		for _, u := range d.MID() {
 			g.MID = append(g.MID, ref.S35UPID{Type: uint8(u.UPIDType()), Data: append([]byte(nil), u.UPID()...)})
 		}
+		same := len(g.MID) == len(oldMID)
+		for i := 0; same && i < len(g.MID); i++ {
+			same = g.MID[i].Type == oldMID[i].Type && bytes.Equal(g.MID[i].Data, oldMID[i].Data)
+		}
+		if len(g.MID) > 0 && !same {
+			m.frame = fmt.Sprintf("MID() reports %d identifiers after SetUPIDType, %d were observable before the call", len(g.MID), len(oldMID))
+		}
 	} else {
 		g.UPID = append([]byte(nil), d.UPID()...)
+		if len(g.UPID) > 0 && !bytes.Equal(g.UPID, oldUPID) {
+			m.frame = fmt.Sprintf("UPID() reports % x after SetUPIDType, % x was observable before the call", g.UPID, oldUPID)
+		}
 	}
 }
 
@@ -798,6 +814,10 @@ func c09Apply(ops []c09Op) func(st *c09State, op int, res *engine.Result) bool {
 		}
 		class := c08CmdClass(&st.m.sec)
 		cmp.what = "after " + op.name + " the model is " + c08Describe(&st.m.sec)
+		if st.m.frame != "" {
+			cmp.failf(class, "identifiers appear that no getter showed before the call", "%s", st.m.frame)
+			st.m.frame = ""
+		}
 		// every getter reflects the history
 		c08Compare(cmp, st.lazy, &st.m.sec, true)
 		if got := uint64(st.lazy.PTS()); got != st.m.sigPTS {
